@@ -299,7 +299,7 @@ PROPS = {
         "kind": "c05",
         "module": "Props.C05",
         "namespace": "Jl.C05",
-        "extra_theorem_files": [("Proofs.Pairings", "Jl.Pairings"), ("Proofs.SelfReadable", "Jl.SelfReadable")],
+        "extra_theorem_files": [("Proofs.Pairings", "Jl.Pairings"), ("Proofs.SelfReadable", "Jl.SelfReadable"), ("Proofs.LineFixedPoint", "Jl.LineFixedPoint")],
         "rule": ("under process zones UTC, +05:30, -03:00, Europe/Paris, America/New_York: output templates of 1-5 columns whose descriptors are "
                  "drawn from the self-readable table (all 9 formats, raw types incl. none; hidden included), input templates equal to the "
                  "output template or with independent formats / raw types / auto, input lines with values chosen to be mostly accepted "
